@@ -104,7 +104,7 @@ _RE_STATES = re.compile(r'(\d+) states generated, (\d+) distinct states found')
 _RE_DEPTH = re.compile(r'The depth of the complete state graph search is (\d+)')
 _RE_INV = re.compile(r'Error: Invariant (\S+) is violated')
 _RE_PROP = re.compile(r'Error: Action property (\S+) is violated')
-_RE_COV = re.compile(r'^<(\w+) line \d+, col \d+ to line \d+, col \d+ of module (\w+)>: (\d+):(\d+)', re.M)
+_RE_COV = re.compile(r'^<(\w+) line \d+, col \d+ to line \d+, col \d+ of module (\w+)(?: \((\d+) \d+ \d+ \d+\))?>: (\d+):(\d+)', re.M)
 
 
 def _parse(res, out, rc):
@@ -117,7 +117,9 @@ def _parse(res, out, rc):
     if m:
         res.depth = int(m.group(1))
     for m in _RE_COV.finditer(out):
-        res.coverage[m.group(1)] = (int(m.group(3)), int(m.group(4)))
+        # disjuncts of Next that are not a named action of their own show as  <Next ... (line col line col)>
+        name = m.group(1) if not m.group(3) else '%s@line%s' % (m.group(1), m.group(3))
+        res.coverage[name] = (int(m.group(4)), int(m.group(5)))
     res.prints = _extract_prints(out)
     m = _RE_INV.search(out)
     if m:
